@@ -185,6 +185,9 @@ pub fn run<'a, R: Send + 'a>(threads: Vec<Vec<OpFn<'a, R>>>, chooser: &mut dyn C
 /// `hold_last`: the last thread is a finalizer that only becomes enabled once every other thread has
 /// finished (quiescent reads that must still run under the scheduler so that a spin is detected).
 pub fn run_opts<'a, R: Send + 'a>(threads: Vec<Vec<OpFn<'a, R>>>, chooser: &mut dyn Chooser, max_steps: usize, hold_last: bool) -> Exec<R> {
+    if crate::schedsrc::free_mode() {
+        return run_free(threads, hold_last);
+    }
     let n = threads.len();
     let shared = Arc::new(Shared {
         slots: (0..n)
@@ -606,4 +609,84 @@ impl Chooser for Window {
         }
         d.enabled[0]
     }
+}
+
+
+/// Free-running execution: the same program on real OS threads released together by a spin barrier, with no
+/// hook installed (the library's synchronisation runs natively, including any that does not go through the
+/// shim). Invocation and response "steps" are tickets drawn from one global counter, so `a.response <
+/// b.invoke` still implies that `a` returned before `b` was called and the history oracles stay sound. The
+/// outcome depends on the OS scheduler: a failure found this way is real but reproduces only statistically.
+/// A run that does not finish within 30 s ends the process with exit status 2 (inconclusive).
+pub fn run_free<'a, R: Send + 'a>(threads: Vec<Vec<OpFn<'a, R>>>, hold_last: bool) -> Exec<R> {
+    use std::sync::atomic::AtomicUsize;
+    let n = threads.len();
+    let nworkers = if hold_last { n - 1 } else { n };
+    let ticket = AtomicUsize::new(1);
+    let ready = AtomicUsize::new(0);
+    let done = Arc::new(AtomicBool::new(false));
+    {
+        let done = done.clone();
+        std::thread::spawn(move || {
+            for _ in 0..300 {
+                std::thread::sleep(std::time::Duration::from_millis(100));
+                if done.load(Ordering::SeqCst) {
+                    return;
+                }
+            }
+            eprintln!("pv: a free-running case did not finish within 30 s (inconclusive)");
+            std::process::exit(2);
+        });
+    }
+    let recs: Mutex<Vec<OpRec<R>>> = Mutex::new(vec![]);
+    let panic_msg: Mutex<Option<String>> = Mutex::new(None);
+    let mut it = threads.into_iter();
+    let workers: Vec<Vec<OpFn<'a, R>>> = (&mut it).take(nworkers).collect();
+    let finalizer: Option<Vec<OpFn<'a, R>>> = it.next();
+    let run_ops = |t: usize, ops: Vec<OpFn<'a, R>>| {
+        for (idx, op) in ops.into_iter().enumerate() {
+            let invoke = ticket.fetch_add(1, Ordering::SeqCst);
+            let r = std::panic::catch_unwind(std::panic::AssertUnwindSafe(op));
+            let response = ticket.fetch_add(1, Ordering::SeqCst);
+            match r {
+                Ok(v) => recs.lock().unwrap().push(OpRec { thread: t, idx, invoke, response: Some(response), result: Some(v) }),
+                Err(p) => {
+                    let m = p.downcast_ref::<String>().cloned().or_else(|| p.downcast_ref::<&str>().map(|s| s.to_string())).unwrap_or_else(|| "panic".into());
+                    *panic_msg.lock().unwrap() = Some(m);
+                    return;
+                }
+            }
+        }
+    };
+    std::thread::scope(|s| {
+        for (t, ops) in workers.into_iter().enumerate() {
+            let ready = &ready;
+            let run_ops = &run_ops;
+            s.spawn(move || {
+                ready.fetch_add(1, Ordering::SeqCst);
+                while ready.load(Ordering::SeqCst) < nworkers {
+                    std::hint::spin_loop();
+                }
+                run_ops(t, ops);
+            });
+        }
+    });
+    if let Some(ops) = finalizer {
+        if panic_msg.lock().unwrap().is_none() {
+            std::thread::scope(|s| {
+                let run_ops = &run_ops;
+                s.spawn(move || run_ops(n - 1, ops));
+            });
+        }
+    }
+    done.store(true, Ordering::SeqCst);
+    let mut ops = recs.into_inner().unwrap();
+    ops.sort_by_key(|o| o.invoke);
+    let last = ticket.load(Ordering::SeqCst);
+    let trace: Vec<TraceEv> = (0..last).map(|i| TraceEv { step: i, thread: 0, ann: Ann::Begin, outcome: None, spurious: false, op: None }).collect();
+    let verdict = match panic_msg.into_inner().unwrap() {
+        Some(m) => ExecVerdict::Panic(m),
+        None => ExecVerdict::Completed,
+    };
+    Exec { ops, trace, verdict, switches: 0, preempt_inside_op: 0, spurious_injected: 0 }
 }
